@@ -818,10 +818,12 @@ pub fn check_c08(prop: &str, tier: &str) -> i32 {
         all.extend(forgeries(&issued, ki, rights, if allow { cap } else { 0 }));
     }
     // a key issued after the master key was saved, presented to the restored copy (valid
-    // signature, identifier never registered there)
-    {
-        let saved = ser(&b.msk);
-        let late = cc.generate_user_secret_key(&mut b.msk, &p("A::x && H::lo")).unwrap();
+    // signature, identifier never registered there); the saved master key knows no user at all
+    // in the first round, several in the second
+    for round in 0..2 {
+        let mut fresh = w1();
+        let saved = if round == 0 { ser(&fresh.msk) } else { ser(&b.msk) };
+        let late = if round == 0 { cc.generate_user_secret_key(&mut fresh.msk, &p("A::x && H::lo")).unwrap() } else { cc.generate_user_secret_key(&mut b.msk, &p("A::x && H::lo")).unwrap() };
         let mut restored = MasterSecretKey::deserialize(&saved).unwrap();
         let before = ser(&restored);
         for keep in [true, false] {
